@@ -3,8 +3,9 @@ import IofloModel.Lemmas.Server
 # C26 — a TCP server keeps one live connection entry per peer address
 
 Property theorems only.  Model: `Model/Server.lean` (`Server` / `ServerTls` accept queue, `.axes`,
-`.ixes`, `.cxes`, `removeIx` / `closeIx` / `shutdownIx`, TLS handshake move), version `fixed` = with
-`fixes/D14-*.patch` (`self.shutdownIx(ca)`); `orig` = the code as found.
+`.ixes`, `.cxes`, `removeIx` / `closeIx` / `shutdownIx`, TLS handshake move), version `fixed2` = with
+`fixes/D14-*.patch` (`self.shutdownIx(ca)`) and `fixes/D14b-*.patch` (ServerTls shuts a stale incomer
+down before replacing it); `orig` = the code as found, `fixed` = with D14 only.
 -/
 namespace Ioflo.Server
 
@@ -49,7 +50,7 @@ theorem C26_no_shared_socket (v : Version) (tls : Bool) (eha : Addr) (ops : List
 
 /-- non-vacuity: three arrivals from two addresses, the repeated one replaced -/
 example :
-    let s := run .fixed (init false 9)
+    let s := run .fixed2 (init false 9)
       [.arrive 5 9 5 [], .arrive 6 9 6 [], .serviceConnects, .arrive 5 9 5 [], .serviceConnects]
     s.ixes = [(5, { sock := 2, ca := 5 }), (6, { sock := 1, ca := 6 })] ∧
       (s.socks.map (·.shutdowns)) = [1, 0, 0] := by decide
@@ -64,7 +65,7 @@ theorem admit_plain (v : Version) (s : State) (cs : Nat) (k : Sock)
       | some old =>
         match v with
         | .orig => .raised .typeError s
-        | .fixed => .ok { s with socks := shutdownIncomer s.socks old,
+        | _ => .ok { s with socks := shutdownIncomer s.socks old,
                                  ixes := put s.ixes k.peer { sock := cs, ca := k.peer },
                                  admitted := s.admitted ++ [cs] }
       | none => .ok { s with ixes := put s.ixes k.peer { sock := cs, ca := k.peer },
@@ -82,18 +83,18 @@ raised, `old`'s socket gets a `shutdown()` (if `old` still had one), the entry u
 theorem C26_accept_replaces_stale (s : State) (cs : Nat) (ca : Addr) (k : Sock) (old : Incomer)
     (htls : s.tls = false) (hk : s.socks[cs]? = some k) (hpeer : k.peer = ca)
     (hold : get? s.ixes ca = some old) :
-    (admitOne .fixed s cs ca).exc = none ∧
-      get? (admitOne .fixed s cs ca).state.ixes ca = some { sock := cs, ca := ca } ∧
-      (admitOne .fixed s cs ca).state.ixes.map (·.1) = s.ixes.map (·.1) ∧
-      (∀ ca', ca' ≠ ca → get? (admitOne .fixed s cs ca).state.ixes ca' = get? s.ixes ca') ∧
+    (admitOne .fixed2 s cs ca).exc = none ∧
+      get? (admitOne .fixed2 s cs ca).state.ixes ca = some { sock := cs, ca := ca } ∧
+      (admitOne .fixed2 s cs ca).state.ixes.map (·.1) = s.ixes.map (·.1) ∧
+      (∀ ca', ca' ≠ ca → get? (admitOne .fixed2 s cs ca).state.ixes ca' = get? s.ixes ca') ∧
       (old.hasCs = true → ∀ j : Nat,
-        ((admitOne .fixed s cs ca).state.socks[j]?).map (fun x : Sock => x.shutdowns) =
+        ((admitOne .fixed2 s cs ca).state.socks[j]?).map (fun x : Sock => x.shutdowns) =
           if j = old.sock then (s.socks[j]?).map (fun x : Sock => x.shutdowns + 1)
           else (s.socks[j]?).map (fun x : Sock => x.shutdowns)) ∧
-      (∀ j : Nat, ((admitOne .fixed s cs ca).state.socks[j]?).map (fun x : Sock => x.closed)
+      (∀ j : Nat, ((admitOne .fixed2 s cs ca).state.socks[j]?).map (fun x : Sock => x.closed)
         = (s.socks[j]?).map (fun x : Sock => x.closed)) := by
   subst hpeer
-  rw [admit_plain .fixed s cs k htls hk, hold]
+  rw [admit_plain .fixed2 s cs k htls hk, hold]
   refine ⟨rfl, get?_put_self _ _ _, ?_, fun ca' hne => get?_put_ne _ _ hne, ?_, ?_⟩
   · show (put s.ixes k.peer _).map (·.1) = _
     rw [keys_put]
@@ -116,7 +117,7 @@ theorem C26_accept_replaces_stale (s : State) (cs : Nat) (ca : Addr) (k : Sock) 
 
 /-- non-vacuity of the hypotheses -/
 example :
-    let s := run .fixed (init false 9) [.arrive 5 9 5 [], .serviceConnects, .arrive 5 9 5 [], .serviceAccepts]
+    let s := run .fixed2 (init false 9) [.arrive 5 9 5 [], .serviceConnects, .arrive 5 9 5 [], .serviceAccepts]
     s.tls = false ∧ s.socks[1]? = some { peer := 5, sockname := 9 } ∧
       get? s.ixes 5 = some { sock := 0, ca := 5 } ∧ s.axes = [(1, 5)] := by decide
 
@@ -195,7 +196,7 @@ theorem C26_close_keeps_entry (s : State) (ca : Addr) (ix : Incomer) (hix : get?
   simp [this]
 
 example :
-    let s := run .fixed (init false 9) [.arrive 5 9 5 [], .arrive 6 9 6 [], .serviceConnects, .removeIx 5 true]
+    let s := run .fixed2 (init false 9) [.arrive 5 9 5 [], .arrive 6 9 6 [], .serviceConnects, .removeIx 5 true]
     s.ixes = [(6, { sock := 1, ca := 6 })] ∧ s.socks.map (·.closed) = [true, false] := by decide
 
 /-! ## TLS: the handshake moves an entry from `.cxes` to `.ixes` -/
@@ -203,86 +204,74 @@ example :
 /-- **C26, TLS move.** One `serviceHandshake` on the pending entry `(ca, cx)`: if `do_handshake`
 completes, `cx` (now connected) is the entry of `.ixes` under `ca` and `.cxes` has no entry for `ca`;
 if it wants more I/O nothing moves. -/
-theorem C26_tls_handshake_moves (s : State) (ca : Addr) (cx : Incomer) (k : Sock)
+theorem C26_tls_handshake_moves (v : Version) (s : State) (ca : Addr) (cx : Incomer) (k : Sock)
     (hn : (s.cxes.map (·.1)).Nodup) (hc : cx.connected = false) (hcs : cx.hasCs = true)
     (hk : s.socks[cx.sock]? = some k) :
     (k.hs.headD .want = .done →
-      (shakeOne s ca cx).exc = none ∧
-        get? (shakeOne s ca cx).state.ixes ca = some { cx with connected := true } ∧
-        get? (shakeOne s ca cx).state.cxes ca = none) ∧
+      (shakeOne v s ca cx).exc = none ∧
+        get? (shakeOne v s ca cx).state.ixes ca = some { cx with connected := true } ∧
+        get? (shakeOne v s ca cx).state.cxes ca = none) ∧
     (k.hs.headD .want = .want →
-      (shakeOne s ca cx).exc = none ∧ (shakeOne s ca cx).state.ixes = s.ixes ∧
-        (shakeOne s ca cx).state.cxes = s.cxes) := by
+      (shakeOne v s ca cx).exc = none ∧ (shakeOne v s ca cx).state.ixes = s.ixes ∧
+        (shakeOne v s ca cx).state.cxes = s.cxes) := by
   constructor
   · intro hd
-    have hr : shakeOne s ca cx = .ok { s with
-        socks := upd s.socks cx.sock (fun k => { k with hs := k.hs.tail }),
+    have hr : shakeOne v s ca cx = .ok { s with
+        socks := shutStale v (upd s.socks cx.sock (fun k => { k with hs := k.hs.tail })) s.ixes ca,
         ixes := put s.ixes ca { cx with connected := true }, cxes := del s.cxes ca } := by
       simp only [shakeOne, hc, hcs, hk, hd, Bool.false_eq_true, if_false, Bool.not_true]
     rw [hr]
     exact ⟨rfl, get?_put_self _ _ _, get?_del_self ca hn⟩
   · intro hw
-    have hr : shakeOne s ca cx = .ok { s with
+    have hr : shakeOne v s ca cx = .ok { s with
         socks := upd s.socks cx.sock (fun k => { k with hs := k.hs.tail }) } := by
       simp only [shakeOne, hc, hcs, hk, hw, Bool.false_eq_true, if_false, Bool.not_true]
     rw [hr]
     exact ⟨rfl, rfl, rfl⟩
 
 example :
-    let s := run .fixed (init true 9)
+    let s := run .fixed2 (init true 9)
       [.arrive 5 9 5 [.want, .done], .arrive 6 9 6 [], .serviceConnects, .serviceConnects]
     s.ixes = [(5, { sock := 0, ca := 5, connected := true })] ∧
       s.cxes = [(6, { sock := 1, ca := 6 })] := by decide
 
 /-! ## no connection leaves the table without being shut down -/
 
-/-- the full statement: on either kind of server, every socket that was ever entered into the
-connection table is still the socket of a live entry, or has received `shutdown()`/`close()`, or
-was handed back by `removeIx(ca, shutclose=False)` -/
-def C26_full : Prop :=
-  ∀ (tls : Bool) (eha : Addr) (ops : List Op), Accounted (run .fixed (init tls eha) ops)
+/-- **C26, stale connections are shut down** (with the D14 and D14b repairs) — `Server` and `ServerTls`,
+every history (arrivals with repeated addresses, accepts, handshakes that complete, stall or fail,
+closes, shutdowns, removals, service calls): every socket that was ever entered into `.ixes` or `.cxes`
+is still the socket of a live entry, or has received `shutdown()` / `close()`, or was handed back by
+`removeIx(ca, shutclose=False)`. -/
+theorem C26_displaced_are_shut (tls : Bool) (eha : Addr) (ops : List Op) :
+    ∀ id ∈ (run .fixed2 (init tls eha) ops).admitted,
+      heldBy ((run .fixed2 (init tls eha) ops).ixes ++ (run .fixed2 (init tls eha) ops).cxes) id ∨
+      isShut (run .fixed2 (init tls eha) ops).socks id ∨
+      id ∈ (run .fixed2 (init tls eha) ops).released :=
+  (acc_run (init tls eha) ops ⟨inv_init tls eha, fun _ h => (nomatch h)⟩).acc
 
-/-- **C26, stale connections are shut down** — proved for the plain `Server` (with the D14 repair),
-every history: arrivals with repeated addresses, accepts, closes, shutdowns, removals, service
-calls.  Hypothesis `tls = false` excludes `ServerTls` (finding D14b, counterexample below). -/
-theorem C26_displaced_are_shut_partial (eha : Addr) (ops : List Op) :
-    ∀ id ∈ (run .fixed (init false eha) ops).admitted,
-      heldBy (run .fixed (init false eha) ops).ixes id ∨
-      isShut (run .fixed (init false eha) ops).socks id ∨
-      id ∈ (run .fixed (init false eha) ops).released :=
-  (plain_run (init false eha) ops
-    ⟨inv_init false eha, rfl, fun _ h => (nomatch h)⟩).acc
-
-/-- non-vacuity: socket 0 was displaced by socket 2 and is shut; 1 and 2 are live entries -/
+/-- non-vacuity (plain): socket 0 was displaced by socket 2 and is shut; 1 and 2 are live entries -/
 example :
-    let s := run .fixed (init false 9)
+    let s := run .fixed2 (init false 9)
       [.arrive 5 9 5 [], .arrive 6 9 6 [], .serviceConnects, .arrive 5 9 5 [], .serviceConnects]
     s.admitted = [0, 1, 2] ∧ (s.socks.map (·.shutdowns)) = [1, 0, 0] ∧
       s.ixes.map (·.2.sock) = [2, 1] := by decide
 
-/-- **Finding D14b**: `ServerTls` enters the handshaked connection with `self.ixes[ca] = cx` and
-nothing else — a stale entry for the same address is dropped from the table with its socket
-neither shut down nor closed. -/
-theorem C26_counterexample_tls_stale_not_shut : ¬ C26_full := by
-  intro h
-  have := h true 9 [.arrive 5 9 5 [.done], .serviceConnects, .arrive 5 9 5 [.done], .serviceConnects]
-    0 (by decide)
-  rcases this with ⟨e, he, hs, _⟩ | ⟨k, hk, hsh⟩ | hr
-  · have hix : (run .fixed (init true 9)
-        [.arrive 5 9 5 [.done], .serviceConnects, .arrive 5 9 5 [.done], .serviceConnects]).ixes
-        = [(5, { sock := 1, ca := 5, connected := true })] := by decide
-    rw [hix] at he
-    simp only [List.mem_singleton] at he
-    subst he
-    exact absurd hs (by decide)
-  · have hsk : (run .fixed (init true 9)
-        [.arrive 5 9 5 [.done], .serviceConnects, .arrive 5 9 5 [.done], .serviceConnects]).socks[0]?
-        = some { peer := 5, sockname := 9 } := by decide
-    rw [hsk] at hk
-    cases hk
-    rcases hsh with hsh | hsh
-    · exact absurd hsh (by decide)
-    · exact absurd hsh (by decide)
-  · exact absurd hr (by decide)
+/-- non-vacuity (TLS): the stale established connection 0 is shut down when 1 completes its handshake;
+the stalled handshake 2 is shut down when 3 arrives from the same address -/
+example :
+    let s := run .fixed2 (init true 9)
+      [.arrive 5 9 5 [.done], .serviceConnects, .arrive 5 9 5 [.done], .serviceConnects,
+       .arrive 6 9 6 [.want, .want], .serviceConnects, .arrive 6 9 6 [.want], .serviceConnects]
+    s.ixes.map (·.2.sock) = [1] ∧ s.cxes.map (·.2.sock) = [3] ∧
+      (s.socks.map (·.shutdowns)) = [1, 0, 1, 0] := by decide
+
+/-- **D14b before the repair** (version `fixed` = D14 only): `ServerTls` entered the handshaked
+connection with `self.ixes[ca] = cx` and nothing else — the stale entry's socket 0 is dropped from the
+table neither shut down nor closed nor released. -/
+theorem C26_D14b_orig_tls_stale_not_shut :
+    let s := run .fixed (init true 9)
+      [.arrive 5 9 5 [.done], .serviceConnects, .arrive 5 9 5 [.done], .serviceConnects]
+    0 ∈ s.admitted ∧ s.ixes = [(5, { sock := 1, ca := 5, connected := true })] ∧ s.cxes = [] ∧
+      s.socks[0]? = some { peer := 5, sockname := 9 } ∧ s.released = [] := by decide
 
 end Ioflo.Server
